@@ -315,56 +315,65 @@ def strUsage (f : Path) (plus minus : Nat → Nat) (p : String × Range) : Event
 def argUsage (f : Path) (a : Arg) : Event :=
   .usage ⟨a.name, f, a.line, a.col, a.col + a.name.utf8ByteSize⟩
 
+/-- the `is_test` branch of `visit_stmt`: every parameter but `self` is a usage, then the body scan. -/
+def testEvents (f : Path) (modNames : List String) (name : String) (args : Args) (body : List Stmt)
+    (r : Range) : List Event :=
+  if name.startsWith "test_" then
+    ((args.all.filter (fun a => a.name != "self")).map (argUsage f)) ++
+    [.scan ⟨name, r.line, ["self", "request"] ++ args.all.map (·.name),
+      localsOf body ++ modNames.map (fun n => (n, 0)), refsOfStmts body⟩]
+  else []
+
+/-- the definition recorded for a fixture function -/
+def fixtureDef (f : Path) (lines : List Chars) (name : String) (deco : Expr) (args : Args)
+    (returns : Option Expr) (body : List Stmt) (r : Range) (doc : Option String) : Def :=
+  { name := (fixtureNameOf deco).getD name, file := f, line := r.line, endLine := r.endLine,
+    startChar := (findFunctionNamePosition lines r.line name.toList).1,
+    endChar := (findFunctionNamePosition lines r.line name.toList).2,
+    docstring := doc, returnType := returnTypeOf returns body,
+    thirdParty := false, plugin := false,
+    deps := (args.all.map (·.name)).filter (fun a => a != "self" && a != "request"),
+    scope := (fixtureScopeOf deco).getD .function,
+    yieldLine := yieldLine body, autouse := fixtureAutouseOf deco }
+
+/-- the fixture branch of `visit_stmt`: the definition, its parameter usages, the body scan. -/
+def fixtureEvents (f : Path) (lines : List Chars) (modNames : List String) (name : String) (deco : Expr)
+    (args : Args) (returns : Option Expr) (body : List Stmt) (r : Range) (doc : Option String) : List Event :=
+  [.defn (fixtureDef f lines name deco args returns body r doc)] ++
+  ((args.all.filter (fun a => a.name != "self" && a.name != "request")).map (argUsage f)) ++
+  [.scan ⟨name, r.line, ["self", "request", name] ++ args.all.map (·.name),
+    localsOf body ++ modNames.map (fun n => (n, 0)), refsOfStmts body⟩]
+
 /-- the function part of `visit_stmt`. -/
 def visitFunction (f : Path) (lines : List Chars) (modNames : List String)
     (name : String) (decos : List Expr) (args : Args) (returns : Option Expr)
     (body : List Stmt) (r : Range) : List Event :=
-  let uf := decos.flatMap (fun d => (usefixturesNames d).map (strUsage f (· + 1) (· - 1)))
-  let pi := decos.flatMap (fun d => (parametrizeIndirect d).map (strUsage f (· + 1) (· - 1)))
-  let locals := localsOf body ++ modNames.map (fun n => (n, 0))
-  let refs := refsOfStmts body
-  let fixturePart : List Event :=
-    match decos.find? isFixtureDecorator with
-    | none => []
-    | some deco =>
-      match docstringOf body with
-      | some none => [.panic]
-      | doc =>
-        let fname := (fixtureNameOf deco).getD name
-        let (sc, ec) := findFunctionNamePosition lines r.line name.toList
-        let deps := (args.all.map (·.name)).filter (fun a => a != "self" && a != "request")
-        let d : Def := {
-          name := fname, file := f, line := r.line, endLine := r.endLine,
-          startChar := sc, endChar := ec,
-          docstring := doc.bind id, returnType := returnTypeOf returns body,
-          thirdParty := false, plugin := false, deps := deps,
-          scope := (fixtureScopeOf deco).getD .function,
-          yieldLine := yieldLine body, autouse := fixtureAutouseOf deco }
-        [.defn d] ++
-        ((args.all.filter (fun a => a.name != "self" && a.name != "request")).map (argUsage f)) ++
-        [.scan ⟨name, r.line, ["self", "request", name] ++ args.all.map (·.name), locals, refs⟩]
-  let testPart : List Event :=
-    if name.startsWith "test_" then
-      ((args.all.filter (fun a => a.name != "self")).map (argUsage f)) ++
-      [.scan ⟨name, r.line, ["self", "request"] ++ args.all.map (·.name), locals, refs⟩]
-    else []
-  -- a panic in the fixture part aborts before the test part is reached
-  if fixturePart.any (fun e => match e with | .panic => true | _ => false) then uf ++ pi ++ fixturePart
-  else uf ++ pi ++ fixturePart ++ testPart
+  let marks := decos.flatMap (fun d => (usefixturesNames d).map (strUsage f (· + 1) (· - 1))) ++
+    decos.flatMap (fun d => (parametrizeIndirect d).map (strUsage f (· + 1) (· - 1)))
+  match decos.find? isFixtureDecorator with
+  | none => marks ++ testEvents f modNames name args body r
+  | some deco =>
+    match docstringOf body with
+    | some none => marks ++ [.panic]     -- `format_docstring` panicked: nothing further is recorded
+    | some (some s) => marks ++ fixtureEvents f lines modNames name deco args returns body r (some s) ++
+        testEvents f modNames name args body r
+    | none => marks ++ fixtureEvents f lines modNames name deco args returns body r none ++
+        testEvents f modNames name args body r
+
+/-- the definition an assignment-style fixture records for one target -/
+def assignTargetDef (f : Path) (r : Range) : Expr → Option Def
+  | .name id nr => some {
+      name := id, file := f, line := r.line, endLine := r.line,
+      startChar := nr.col, endChar := nr.endCol, docstring := none, returnType := none,
+      thirdParty := false, plugin := false, deps := [], scope := .function,
+      yieldLine := none, autouse := false }
+  | _ => none
 
 /-- `visit_assignment_fixture`. -/
 def visitAssignFixture (f : Path) (targets : List Expr) (value : Expr) (r : Range) : List Event :=
   match value with
   | .call (.call inner _ _ _ _) _ _ _ _ =>
-    if isFixtureDecorator inner then
-      targets.filterMap (fun t => match t with
-        | .name id nr => some (.defn {
-            name := id, file := f, line := r.line, endLine := r.line,
-            startChar := nr.col, endChar := nr.endCol, docstring := none, returnType := none,
-            thirdParty := false, plugin := false, deps := [], scope := .function,
-            yieldLine := none, autouse := false })
-        | _ => none)
-    else []
+    if isFixtureDecorator inner then (targets.filterMap (assignTargetDef f r)).map Event.defn else []
   | _ => []
 
 def isNameNamed (n : String) : Expr → Bool
